@@ -78,6 +78,9 @@ func (n *node[K, V]) search(t *BTree[K, V], key K, height int) (V, bool) {
 	if height == 0 {
 		for i := 0; i < n.m; i++ {
 			if gogu.Equal(key, n.children[i].key) {
+				if n.children[i].isRemoved {
+					break
+				}
 				return n.children[i].value, true
 			}
 		}
@@ -96,8 +99,10 @@ func (n *node[K, V]) search(t *BTree[K, V], key K, height int) (V, bool) {
 
 // Put inserts a new value into the B-tree.
 func (t *BTree[K, V]) Put(key K, val V) {
+	if _, ok := t.Get(key); !ok {
+		t.n++
+	}
 	u := t.root.insert(t, key, val, t.height, false)
-	t.n++
 	if u == nil {
 		return
 	}
